@@ -13,7 +13,7 @@ use reactive_graph::{
     traits::{Notify, Read, ReadUntracked, Track, Write},
 };
 use reactive_stores::{
-    AtKeyed, KeyedSubfield, OptionStoreExt, Patch, PatchField, Store, StoreField,
+    ArcField, AtKeyed, Field, KeyedSubfield, OptionStoreExt, Patch, PatchField, Store, StoreField,
     StoreFieldIterator,
 };
 use std::{
@@ -198,7 +198,7 @@ pub struct Root {
 }
 
 /// everything the harness needs from a store field, whatever its concrete accessor type
-pub trait Fld<T: 'static>:
+pub trait FldBase<T: 'static>:
     StoreField<Value = T>
     + Track
     + ReadUntracked<Value: Deref<Target = T>>
@@ -209,7 +209,7 @@ pub trait Fld<T: 'static>:
     + 'static
 {
 }
-impl<T: 'static, S> Fld<T> for S where
+impl<T: 'static, S> FldBase<T> for S where
     S: StoreField<Value = T>
         + Track
         + ReadUntracked<Value: Deref<Target = T>>
@@ -220,6 +220,9 @@ impl<T: 'static, S> Fld<T> for S where
         + 'static
 {
 }
+/// ... and it can be handed on as a type-erased `ArcField` (not so a `KeyedSubfield`)
+pub trait Fld<T: 'static>: FldBase<T> + Into<ArcField<T>> {}
+impl<T: 'static, S> Fld<T> for S where S: FldBase<T> + Into<ArcField<T>> {}
 
 type Step = (i64, i64);
 
@@ -230,20 +233,25 @@ pub trait Val: Sized + Clone + PatchField + Send + Sync + 'static {
     fn has_child(&self, _st: Step) -> bool {
         false
     }
-    fn child<S: Fld<Self>>(_s: &S, _st: Step) -> Option<Box<dyn Node>> {
+    fn child<S: FldBase<Self>>(_s: &S, _st: Step) -> Option<Box<dyn Node>> {
         None
     }
     fn key(&self) -> Option<i64> {
         None
     }
     /// for collections: iterate over the field with the store's own iterator, reading every item
-    fn iter_read<S: Fld<Self>>(_s: &S) -> Option<Sexp> {
+    fn iter_read<S: FldBase<Self>>(_s: &S) -> Option<Sexp> {
         None
     }
 }
 
 fn node<T: Val, S: Fld<T>>(s: S) -> Option<Box<dyn Node>> {
-    Some(Box::new(N::<S, T>(s, PhantomData)))
+    Some(Box::new(N::<S, T>(s, PhantomData, Some(|s: &S| s.clone().into()))))
+}
+
+/// an arena-allocated `Field<T>`: a handle that cannot be converted any further
+fn node_field<T: Val>(f: Field<T>) -> Option<Box<dyn Node>> {
+    Some(Box::new(N::<Field<T>, T>(f, PhantomData, None)))
 }
 
 impl Val for i64 {
@@ -265,7 +273,7 @@ impl Val for Leaf {
     fn has_child(&self, st: Step) -> bool {
         st.0 == 0 && (0..2).contains(&st.1)
     }
-    fn child<S: Fld<Self>>(s: &S, st: Step) -> Option<Box<dyn Node>> {
+    fn child<S: FldBase<Self>>(s: &S, st: Step) -> Option<Box<dyn Node>> {
         match st {
             (0, 0) => node(s.clone().p()),
             (0, 1) => node(s.clone().q()),
@@ -284,7 +292,7 @@ impl Val for Item {
     fn has_child(&self, st: Step) -> bool {
         st.0 == 0 && (0..3).contains(&st.1)
     }
-    fn child<S: Fld<Self>>(s: &S, st: Step) -> Option<Box<dyn Node>> {
+    fn child<S: FldBase<Self>>(s: &S, st: Step) -> Option<Box<dyn Node>> {
         match st {
             (0, 0) => node(s.clone().id()),
             (0, 1) => node(s.clone().n()),
@@ -307,7 +315,7 @@ impl Val for Sub {
     fn has_child(&self, st: Step) -> bool {
         st.0 == 0 && (0..3).contains(&st.1)
     }
-    fn child<S: Fld<Self>>(s: &S, st: Step) -> Option<Box<dyn Node>> {
+    fn child<S: FldBase<Self>>(s: &S, st: Step) -> Option<Box<dyn Node>> {
         match st {
             (0, 0) => node(s.clone().x()),
             (0, 1) => node(s.clone().l()),
@@ -332,7 +340,7 @@ impl Val for Mid {
     fn has_child(&self, st: Step) -> bool {
         st.0 == 0 && (0..4).contains(&st.1)
     }
-    fn child<S: Fld<Self>>(s: &S, st: Step) -> Option<Box<dyn Node>> {
+    fn child<S: FldBase<Self>>(s: &S, st: Step) -> Option<Box<dyn Node>> {
         match st {
             (0, 0) => node(s.clone().x()),
             (0, 1) => node(s.clone().l()),
@@ -359,7 +367,7 @@ impl Val for Root {
     fn has_child(&self, st: Step) -> bool {
         st.0 == 0 && (0..5).contains(&st.1)
     }
-    fn child<S: Fld<Self>>(s: &S, st: Step) -> Option<Box<dyn Node>> {
+    fn child<S: FldBase<Self>>(s: &S, st: Step) -> Option<Box<dyn Node>> {
         match st {
             (0, 0) => node(s.clone().a()),
             (0, 1) => node(s.clone().m()),
@@ -384,7 +392,7 @@ impl<T: Val> Val for Option<T> {
     fn has_child(&self, st: Step) -> bool {
         st.0 == 1 && self.is_some()
     }
-    fn child<S: Fld<Self>>(s: &S, st: Step) -> Option<Box<dyn Node>> {
+    fn child<S: FldBase<Self>>(s: &S, st: Step) -> Option<Box<dyn Node>> {
         match st {
             (1, _) => node(s.clone().unwrap()),
             _ => None,
@@ -406,13 +414,13 @@ impl<T: Val> Val for Vec<T> {
             _ => false,
         }
     }
-    fn child<S: Fld<Self>>(s: &S, st: Step) -> Option<Box<dyn Node>> {
+    fn child<S: FldBase<Self>>(s: &S, st: Step) -> Option<Box<dyn Node>> {
         match st {
             (2, i) if i >= 0 => node(s.clone().at_unkeyed(i as usize)),
             _ => None,
         }
     }
-    fn iter_read<S: Fld<Self>>(s: &S) -> Option<Sexp> {
+    fn iter_read<S: FldBase<Self>>(s: &S) -> Option<Sexp> {
         Some(Lst(s
             .clone()
             .iter_unkeyed()
@@ -446,9 +454,10 @@ pub trait Node {
     }
 }
 
-struct N<S, T>(S, PhantomData<T>);
+/// a field, its value type, and how to hand it on as a type-erased `ArcField` (if possible)
+struct N<S, T: 'static>(S, PhantomData<T>, Option<fn(&S) -> ArcField<T>>);
 
-impl<T: Val, S: Fld<T>> Node for N<S, T> {
+impl<T: Val, S: FldBase<T>> Node for N<S, T> {
     fn read(&self) -> Sexp {
         match self.0.try_read() {
             Some(g) => g.deref().enc(),
@@ -456,9 +465,17 @@ impl<T: Val, S: Fld<T>> Node for N<S, T> {
         }
     }
     fn has_child(&self, st: Step) -> bool {
-        self.0.try_read_untracked().map(|g| g.deref().has_child(st)).unwrap_or(false)
+        // step kind 4: hand the field on type-erased, as an ArcField (4 0) or a Field (4 1)
+        self.0
+            .try_read_untracked()
+            .map(|g| if st.0 == 4 { self.2.is_some() } else { g.deref().has_child(st) })
+            .unwrap_or(false)
     }
     fn child(&self, st: Step) -> Option<Box<dyn Node>> {
+        if st.0 == 4 {
+            let erased: ArcField<T> = (self.2?)(&self.0);
+            return if st.1 == 0 { node::<T, _>(erased) } else { node_field::<T>(Field::from(erased)) };
+        }
         T::child(&self.0, st)
     }
     fn set(&self, v: &Sexp) -> bool {
@@ -490,13 +507,13 @@ fn seg(s: reactive_stores::StorePathSegment) -> i64 {
 /// a keyed collection field (`#[store(key: i64 = |it| it.id)] Vec<Item>`)
 struct NKeyed<Inner, Prev>(KeyedSubfield<Inner, Prev, i64, Vec<Item>>)
 where
-    KeyedSubfield<Inner, Prev, i64, Vec<Item>>: Fld<Vec<Item>>;
+    KeyedSubfield<Inner, Prev, i64, Vec<Item>>: FldBase<Vec<Item>>;
 
 impl<Inner, Prev> Node for NKeyed<Inner, Prev>
 where
     Inner: StoreField<Value = Prev> + Track + Clone + Send + Sync + 'static,
     Prev: 'static,
-    KeyedSubfield<Inner, Prev, i64, Vec<Item>>: Fld<Vec<Item>>,
+    KeyedSubfield<Inner, Prev, i64, Vec<Item>>: FldBase<Vec<Item>>,
 {
     fn read(&self) -> Sexp {
         match self.0.try_read() {
